@@ -18,3 +18,17 @@ type schedMu struct{ sync.Mutex }
 
 // RaceMode reports whether the hand-off is hidden from the race detector.
 const RaceMode = false
+
+
+// goroutine id -> *task (only while a Sim is active)
+var gidMap sync.Map
+
+func regTask(t *task)   { gidMap.Store(goid(), t) }
+func unregTask(t *task) { gidMap.Delete(goid()) }
+func clearTasks()       { gidMap.Range(func(k, v interface{}) bool { gidMap.Delete(k); return true }) }
+func lookupTask(s *Sim) *task {
+	if t, ok := gidMap.Load(goid()); ok {
+		return t.(*task)
+	}
+	return nil
+}
